@@ -26,8 +26,8 @@ static bool no_lifecycle() { for (int s = 0; s < VM_NS; ++s) if (g_enter_count[s
   Instance f VM_CTOR; set_configuration(f, k); for (int c_ = 0; c_ < VM_NC; ++c_) f._core.registry.compoResumable[c_] = nd_u8(); VASSUME(inv_config(f)); sync_monitor(f); VREACH("pre-state of the case key satisfying the invariant")
 
 static void post_invariant(const Instance& f) {
-  VASSERT(C01, inv_config(f), "the configuration is well-formed after the step");
-  VASSERT(C01, inv_quiescent(f), "nothing is left half-applied after the step (no pending marks, empty queue)");
+  VASSERT(C01/C11, inv_config(f), "the configuration is well-formed after the step");
+  VASSERT(C01/C11, inv_quiescent(f), "nothing is left half-applied after the step (no pending marks, empty queue)");
   VASSERT(C03, inv_monitor(f), "entered states == active states after the step");
   VASSERT(C03, g_this_consistent, "all callbacks of a state are delivered to one and the same object");
 #ifdef VM_FOR_STATES
